@@ -14,6 +14,9 @@ pipeline between the bus and its consumer:
                  private copy (`mergeChanges`), emits `&change` — a NEW object — then the Pull
                  goroutine's `filter` as above
 
+  seeds          a subscription that asks for the current value(s) first: the Pull goroutine builds the seed changes
+                 itself (new objects), `filter`, hands them to the consumer before it starts on the bus's events
+
 Event cells live in a heap `Nat → Ev`; the values an event carries are opaque message references
 (the message heap is Core.lean's business).  Every pipeline step declares what it allocates; none
 writes to a cell it received.  `owner` is a ghost: who allocated a cell (`none` = the bus).
@@ -113,6 +116,10 @@ inductive Step
   Pull goroutine, i.e. BEHIND the merger — the emitted cell is dropped, or replaced by a new ADD / REMOVE which then goes
   through the read-mask filter -/
   | emitIncl (i : Nat) (d : Decision)
+  /-- the seed of a subscription (`Pull` without `WithUpdatesOnly`): the Pull goroutine of subscriber `i` builds a change
+  for a current value itself (`&CollectionChange{…, SeedValue: true}` / `&ValueChange{…}`: a new cell, never a bus cell),
+  filters it and hands it to the consumer — seeds do not pass through the merger of a lossy subscriber -/
+  | seed (i : Nat) (e : Ev)
   deriving Repr
 
 /-- write `cells` at `n, n+1, …` -/
@@ -232,6 +239,19 @@ def step (proj : Nat → Nat) (s : ES) : Step → ES
           { s with heap := pushCells s.heap s.next [c, convEv d c],
                    owner := setOwner s.owner s.next 2 (some sb.idx), next := s.next + 2,
                    subs := replaceSub s.subs sb fun x => { x with pending := rest, out := x.out ++ [s.next + 1] } }
+
+  | .seed i e =>
+    match s.subs.find? (fun sb => sb.idx = i) with
+    | none => s
+    | some sb =>
+      if sb.mask then
+        { s with heap := pushCells s.heap s.next [e, projEv proj e],
+                 owner := setOwner s.owner s.next 2 (some sb.idx), next := s.next + 2,
+                 subs := replaceSub s.subs sb fun x => { x with out := x.out ++ [s.next + 1] } }
+      else
+        { s with heap := pushCells s.heap s.next [e],
+                 owner := setOwner s.owner s.next 1 (some sb.idx), next := s.next + 1,
+                 subs := replaceSub s.subs sb fun x => { x with out := x.out ++ [s.next] } }
 
 /-- any interleaving of writers and pipeline steps is a list of steps -/
 def run (proj : Nat → Nat) (s : ES) : List Step → ES
